@@ -98,6 +98,17 @@ Theorem C14_history_independent : forall (E : env) (history : list (store * api 
 Proof. exact history_independent. Qed.
 Print Assumptions C14_history_independent.
 
+(* The checksum recorded at write time is the one the reader verifies, through every history: after any sequence
+   of commits (each deleting any set of files and appending any files; manifests kept, rewritten with the survivors
+   carried over, or dropped), every entry of every manifest of the resulting snapshot still carries the path, the
+   record count and the CHECKSUM of the entry some commit appended.  So C14_checksum's hypothesis "a checksum is
+   recorded" cannot be lost on the way.  (Over GenRead.gen_entry_checksum, regenerated from create_manifest_file.) *)
+Theorem C14_checksum_survives_history : forall (h : list commit) (m : list dfile) (d : dfile),
+  In m (run_history h) -> In d m ->
+  exists c a, In c h /\ In a (c_appended c) /\ dpath d = dpath a /\ dcount d = dcount a /\ dsum d = dsum a.
+Proof. exact checksum_survives_history. Qed.
+Print Assumptions C14_checksum_survives_history.
+
 (* The model does not raise without cause (so the theorems above are not satisfied by a pipeline that
    always fails): with no transient fault anywhere, metadata that resolves, a complete answer on the
    specification side and recorded checksums that match, every API returns exactly that answer. *)
